@@ -781,6 +781,9 @@ class Analysis:
           ok = self.refine_f(st, fk, nonnan=True, ty=fty)
         if which == 'is_finite' and truth:
           ok = self.refine_f(st, fk, lo=-1.7976931348623157e308, hi=1.7976931348623157e308, nonnan=True, ty=fty)
+        if which == 'is_infinite' and not truth:
+          # not infinite: finite or NaN — the bounds apply to the non-NaN part, the NaN flag is untouched
+          ok = self.refine_f(st, fk, lo=-1.7976931348623157e308, hi=1.7976931348623157e308, ty=fty)
     if not ok:
       return False
     for k in st.eqclass(key):
